@@ -171,7 +171,7 @@ func put32(v uint32) []byte { return []byte{byte(v >> 24), byte(v >> 16), byte(v
 var layouts = map[string]*layout{}
 
 // GenCase builds mutant number idx.
-func GenCase(seed int64, idx int, files []*corpus.File) *Case {
+func genFileCase(seed int64, idx int, files []*corpus.File) *Case {
 	f := files[idx%len(files)]
 	j := idx / len(files)
 	r := gen.New(seed, "C09/case", idx)
@@ -725,3 +725,322 @@ func Main() {
 }
 
 func containerOf(b []byte) string { return parseLayout(b).kind }
+
+// ---- tag-driven systematic stream and recursion mutants
+
+type tagSite struct {
+	file *corpus.File
+	t    tbl
+}
+
+var (
+	tagIndex map[uint32][]tagSite
+	tagList  []uint32
+)
+
+func buildTagIndex(files []*corpus.File) {
+	if tagIndex != nil {
+		return
+	}
+	tagIndex = map[uint32][]tagSite{}
+	for _, f := range files {
+		lay := parseLayout(f.Bytes())
+		layouts[f.ID] = &lay
+		if lay.kind != "sfnt" && lay.kind != "ttc" {
+			continue
+		}
+		for _, t := range lay.tables {
+			if t.off >= 0 && t.length >= 2 && t.off+t.length <= len(f.Bytes()) {
+				tagIndex[t.tag] = append(tagIndex[t.tag], tagSite{f, t})
+			}
+		}
+	}
+	// prefer small files: a mutant of a 16 MB CJK font costs as much as 500 mutants of
+	// a test font; big files are kept only for the tags that exist nowhere else
+	for tg, sites := range tagIndex {
+		var small []tagSite
+		for _, st := range sites {
+			if len(st.file.Bytes()) <= 2<<20 {
+				small = append(small, st)
+			}
+		}
+		if len(small) > 0 {
+			tagIndex[tg] = small
+		}
+	}
+	for tg := range tagIndex {
+		tagList = append(tagList, tg)
+	}
+	sort.Slice(tagList, func(i, j int) bool { return tagList[i] < tagList[j] })
+}
+
+var sysValues16 = []uint16{0, 1, 0x7FFF, 0x8000, 0xFFFF}
+var sysValues32 = []uint32{0, 1, 0x7FFFFFFF, 0x80000000, 0xFFFFFFFF, 0xFFFFFFF0}
+
+// genTagCase: every table tag of the corpus gets the same share of mutants (rare
+// tables such as SVG, sbix, CBLC, MVAR, kerx are otherwise drowned by the hundreds
+// of small test fonts), and inside a table the fields are walked systematically:
+// case k of a tag = (site k mod #sites, aligned offset, width, value).
+func genTagCase(seed int64, k int, files []*corpus.File) *Case {
+	buildTagIndex(files)
+	tg := tagList[k%len(tagList)]
+	k /= len(tagList)
+	sites := tagIndex[tg]
+	site := sites[k%len(sites)]
+	k /= len(sites)
+	span := site.t.length
+	if span > 512 {
+		span = 512
+	}
+	nv := len(sysValues16) + len(sysValues32) + 2
+	off := 2 * ((k / nv) % (span / 2))
+	vi := k % nv
+	var data []byte
+	switch {
+	case vi < len(sysValues16):
+		data = put16(sysValues16[vi])
+	case vi < len(sysValues16)+len(sysValues32):
+		data = put32(sysValues32[vi-len(sysValues16)])
+	case vi == nv-2:
+		data = put32(uint32(site.t.length))
+	default:
+		data = put32(uint32(len(site.file.Bytes())))
+	}
+	o := site.t.off + off
+	if o+len(data) > len(site.file.Bytes()) {
+		data = data[:len(site.file.Bytes())-o]
+	}
+	return &Case{File: site.file.ID, Kind: "tag-systematic-field", Edits: []Edit{{Off: o, Data: data}}, Note: fmt.Sprintf("%s+%d", tagStr(tg), off)}
+}
+
+// recursion mutants: a composite glyph that includes itself, and a CFF global
+// subroutine that calls itself (as last instruction, and followed by return).
+func genRecursionCase(seed int64, k int, files []*corpus.File) *Case {
+	buildTagIndex(files)
+	r := gen.New(seed, "C09/recursion", k)
+	if k%2 == 0 {
+		sites := tagIndex[0x676c7966] // glyf
+		if len(sites) > 0 {
+			site := sites[(k/2)%len(sites)]
+			if c := selfComposite(site, r); c != nil {
+				return c
+			}
+		}
+	}
+	sites := tagIndex[0x43464620] // "CFF "
+	if len(sites) == 0 {
+		return genFileCase(seed, k, files)
+	}
+	site := sites[(k/2)%len(sites)]
+	if c := cffSelfCall(site, r, k%4 >= 2); c != nil {
+		return c
+	}
+	return genFileCase(seed, k, files)
+}
+
+func findTable(f *corpus.File, tag uint32) (tbl, bool) {
+	lay := layouts[f.ID]
+	if lay == nil {
+		l := parseLayout(f.Bytes())
+		lay = &l
+		layouts[f.ID] = lay
+	}
+	for _, t := range lay.tables {
+		if t.tag == tag {
+			return t, true
+		}
+	}
+	return tbl{}, false
+}
+
+func selfComposite(site tagSite, r *gen.RNG) *Case {
+	b := site.file.Bytes()
+	head, ok1 := findTable(site.file, 0x68656164)
+	loca, ok2 := findTable(site.file, 0x6c6f6361)
+	if !ok1 || !ok2 || head.off+52 > len(b) {
+		return nil
+	}
+	long := u16(b, head.off+50) == 1
+	n := loca.length / 2
+	if long {
+		n = loca.length / 4
+	}
+	glyphOff := func(i int) int {
+		if long {
+			return u32(b, loca.off+4*i)
+		}
+		return 2 * u16(b, loca.off+2*i)
+	}
+	var composites []int
+	for g := 0; g+1 < n && g < 70000; g++ {
+		o := site.t.off + glyphOff(g)
+		if glyphOff(g+1)-glyphOff(g) >= 16 && o+14 <= len(b) && int16(u16(b, o)) < 0 {
+			composites = append(composites, g)
+		}
+	}
+	if len(composites) == 0 {
+		return nil
+	}
+	g := composites[r.Intn(len(composites))]
+	target := g
+	if r.Chance(1, 3) && len(composites) > 1 { // two-glyph cycle
+		target = composites[r.Intn(len(composites))]
+	}
+	o := site.t.off + glyphOff(g)
+	c := &Case{File: site.file.ID, Kind: "glyf-composite-cycle", Edits: []Edit{{Off: o + 12, Data: put16(uint16(target))}}, Note: fmt.Sprintf("glyph %d includes glyph %d", g, target)}
+	if target != g {
+		o2 := site.t.off + glyphOff(target)
+		c.Edits = append(c.Edits, Edit{Off: o2 + 12, Data: put16(uint16(g))})
+	}
+	return c
+}
+
+// cffIndex reads a CFF INDEX at off and returns the data offsets of its objects.
+func cffIndex(b []byte, off int) (objs [][2]int, end int, ok bool) {
+	if off+2 > len(b) {
+		return nil, 0, false
+	}
+	count := u16(b, off)
+	if count == 0 {
+		return nil, off + 2, true
+	}
+	if off+3 > len(b) {
+		return nil, 0, false
+	}
+	osz := int(b[off+2])
+	if osz < 1 || osz > 4 || off+3+(count+1)*osz > len(b) {
+		return nil, 0, false
+	}
+	rd := func(i int) int {
+		v := 0
+		for k := 0; k < osz; k++ {
+			v = v<<8 | int(b[off+3+i*osz+k])
+		}
+		return v
+	}
+	base := off + 3 + (count+1)*osz - 1
+	for i := 0; i < count; i++ {
+		lo, hi := base+rd(i), base+rd(i+1)
+		if lo > hi || hi > len(b) {
+			return nil, 0, false
+		}
+		objs = append(objs, [2]int{lo, hi})
+	}
+	return objs, base + rd(count), true
+}
+
+func cffSelfCall(site tagSite, r *gen.RNG, withReturn bool) *Case {
+	b := site.file.Bytes()
+	o := site.t.off
+	if o+4 > len(b) {
+		return nil
+	}
+	p := o + int(b[o+2]) // header size
+	var gsubrs [][2]int
+	for i := 0; i < 4; i++ { // Name, Top DICT, String, Global Subr
+		objs, end, ok := cffIndex(b, p)
+		if !ok {
+			return nil
+		}
+		if i == 3 {
+			gsubrs = objs
+		}
+		p = end
+	}
+	if len(gsubrs) == 0 || len(gsubrs) >= 1240 {
+		return nil
+	}
+	// global subr 0: its last bytes become "<0 - bias> callgsubr [return]" (bias 107)
+	s0 := gsubrs[0]
+	need := 2
+	tail := []byte{32, 29} // -107 callgsubr
+	if withReturn {
+		need, tail = 3, []byte{32, 29, 11}
+	}
+	if s0[1]-s0[0] < need {
+		return nil
+	}
+	c := &Case{File: site.file.ID, Kind: "cff-subr-self-call", Note: fmt.Sprintf("gsubr 0 calls itself (return after: %v)", withReturn),
+		Edits: []Edit{{Off: s0[1] - need, Data: tail}}}
+	// make the charstrings reach it: every occurrence cannot be patched without parsing the
+	// Top DICT; instead patch the first bytes of a few objects after the global subrs that
+	// look like charstrings (the CharStrings INDEX is located through the Top DICT operator 17)
+	if cs := cffCharStrings(b, o); cs != nil {
+		for k := 0; k < 3 && k < len(cs); k++ {
+			g := cs[r.Intn(len(cs))]
+			if g[1]-g[0] >= 2 {
+				c.Edits = append(c.Edits, Edit{Off: g[0], Data: []byte{32, 29}})
+			}
+		}
+	}
+	return c
+}
+
+// cffCharStrings finds the CharStrings INDEX through operator 17 of the first Top DICT.
+func cffCharStrings(b []byte, o int) [][2]int {
+	p := o + int(b[o+2])
+	_, end, ok := cffIndex(b, p) // Name
+	if !ok {
+		return nil
+	}
+	tops, _, ok := cffIndex(b, end)
+	if !ok || len(tops) == 0 {
+		return nil
+	}
+	d := b[tops[0][0]:tops[0][1]]
+	var stack []int
+	for i := 0; i < len(d); {
+		c := int(d[i])
+		switch {
+		case c >= 32 && c <= 246:
+			stack = append(stack, c-139)
+			i++
+		case c >= 247 && c <= 250 && i+1 < len(d):
+			stack = append(stack, (c-247)*256+int(d[i+1])+108)
+			i += 2
+		case c >= 251 && c <= 254 && i+1 < len(d):
+			stack = append(stack, -(c-251)*256-int(d[i+1])-108)
+			i += 2
+		case c == 28 && i+2 < len(d):
+			stack = append(stack, int(int16(uint16(d[i+1])<<8|uint16(d[i+2]))))
+			i += 3
+		case c == 29 && i+4 < len(d):
+			stack = append(stack, int(int32(uint32(d[i+1])<<24|uint32(d[i+2])<<16|uint32(d[i+3])<<8|uint32(d[i+4]))))
+			i += 5
+		case c == 30: // real number: skip nibbles
+			i++
+			for i < len(d) && d[i]&0x0f != 0x0f && d[i]>>4 != 0x0f {
+				i++
+			}
+			i++
+			stack = append(stack, 0)
+		case c == 12:
+			stack = stack[:0]
+			i += 2
+		default:
+			if c == 17 && len(stack) > 0 {
+				objs, _, ok := cffIndex(b, o+stack[len(stack)-1])
+				if ok {
+					return objs
+				}
+				return nil
+			}
+			stack = stack[:0]
+			i++
+		}
+	}
+	return nil
+}
+
+// GenCase dispatches case idx to one of the three streams.
+func GenCase(seed int64, idx int, files []*corpus.File) *Case {
+	switch idx % 8 {
+	case 0, 1, 2:
+		return genTagCase(seed, idx/8*3+idx%8, files)
+	case 3:
+		if (idx/8)%4 == 0 {
+			return genRecursionCase(seed, idx/32, files)
+		}
+	}
+	return genFileCase(seed, idx, files)
+}
